@@ -1,9 +1,124 @@
-"""Thorough-tier self tests (mutants, cross references). Filled in later."""
+"""Thorough-tier self tests: the checker is tested both ways.
+
+run_mutants(prop, seed): every mutant of sa/mutants/specs.py that names `prop` is applied (git apply) to a scratch
+copy of the *current* /repo tree (under $TMPDIR, removed afterwards together with its facts), the property's rules are
+evaluated on it, and the mutant counts as killed iff the expected rule reports a violation. A patch that no longer
+applies is `skipped` (never a pass); a mutant that is not reported `survived` and fails the run.
+
+crossrefs(prop): independent cross-references where one exists.
+"""
+import importlib
+import os
+import random
+import shutil
+import subprocess
+import sys
+import tempfile
+
+HERE = os.path.dirname(os.path.dirname(os.path.abspath(__file__)))
+VERIF = os.path.dirname(HERE)
+sys.path.insert(0, HERE)
 
 
-def run_mutants(prop, seed):
-    return []
+def _copy_tree(dst):
+    """Working-tree copy of /repo (tracked + untracked sources, no build output)."""
+    from lib import extract as ex
+    repo = ex.REPO
+    os.makedirs(dst, exist_ok=True)
+    for item in ("src", "Cargo.toml", "Cargo.lock", "build.rs", "tests", "book", "README.md"):
+        s = os.path.join(repo, item)
+        if os.path.isdir(s):
+            shutil.copytree(s, os.path.join(dst, item), symlinks=True)
+        elif os.path.exists(s):
+            shutil.copy(s, os.path.join(dst, item))
+    subprocess.run(["git", "init", "-q"], cwd=dst, stdout=subprocess.DEVNULL, stderr=subprocess.DEVNULL)
+
+
+def evaluate(prop, repo, tag):
+    """Run prop's rules on an alternate tree; returns (violating rule ids, report)."""
+    from lib import extract as ex
+    from lib.report import Report
+    from lib.ctx import Ctx
+    d, sha, dt, cached = ex.extract("dev", repo=repo, tag=tag)
+    ctx = Ctx("dev", d, sha, repo)
+    rep = Report(prop, "quick", 0)
+    mod = importlib.import_module("rules." + prop.lower())
+    mod.run(ctx, rep)
+    for r in rep.rules:
+        r.finish()
+    bad = {}
+    for r in rep.rules:
+        for i in r.instances:
+            if i["verdict"] != "ok":
+                bad.setdefault(r.id, []).append(i["key"])
+    return bad, d
+
+
+def run_mutants(prop, seed=0, only=None):
+    from mutants.specs import M
+    specs = [m for m in M if prop in m["props"] and (only is None or m["name"] in only)]
+    rnd = random.Random(seed)
+    rnd.shuffle(specs)
+    out = []
+    if not specs:
+        return out
+    base = tempfile.mkdtemp(prefix="jawk-selftest-")
+    try:
+        # what the unmutated tree reports (known findings etc.) is not credited to a mutant
+        baseline, d0 = evaluate(prop, None, "")
+        for m in specs:
+            patch = os.path.join(HERE, "mutants", m["name"] + ".patch")
+            w = os.path.join(base, "tree")
+            shutil.rmtree(w, ignore_errors=True)
+            _copy_tree(w)
+            rec = {"name": m["name"], "expect": m["rule"], "file": m["file"]}
+            ok = os.path.exists(patch) and subprocess.run(["git", "apply", patch], cwd=w,
+                                                           stdout=subprocess.DEVNULL, stderr=subprocess.DEVNULL).returncode == 0
+            if not ok:
+                # fall back to the textual spec on the current tree
+                p = os.path.join(w, m["file"])
+                s = open(p).read() if os.path.exists(p) else ""
+                if s.count(m["old"]) == 1 or (m["nth"] is not None and s.count(m["old"]) >= m["nth"]):
+                    if m["nth"] is None:
+                        s = s.replace(m["old"], m["new"])
+                    else:
+                        parts = s.split(m["old"])
+                        s = m["old"].join(parts[:m["nth"]]) + m["new"] + m["old"].join(parts[m["nth"]:])
+                    open(p, "w").write(s)
+                    ok = True
+            if not ok:
+                rec["status"] = "skipped"
+                rec["why"] = "patch does not apply to the current tree"
+                out.append(rec)
+                continue
+            try:
+                bad, d = evaluate(prop, w, "-mut")
+                new = {rid: [k for k in keys if k not in baseline.get(rid, [])] for rid, keys in bad.items()}
+                new = {rid: ks for rid, ks in new.items() if ks}
+                rec["reported"] = {rid: ks[:3] for rid, ks in new.items()}
+                if m["rule"] in new:
+                    rec["status"] = "killed"
+                elif new:
+                    rec["status"] = "killed-by-other-rule"
+                else:
+                    rec["status"] = "survived"
+            except Exception as e:   # extraction failure = the mutant does not compile
+                rec["status"] = "skipped"
+                rec["why"] = "mutated tree could not be analysed: %s" % str(e)[-300:]
+            out.append(rec)
+    finally:
+        shutil.rmtree(base, ignore_errors=True)
+        from lib import extract as ex
+        shutil.rmtree(os.path.join(ex.CACHE, "facts", "dev-mut"), ignore_errors=True)
+    return out
 
 
 def crossrefs(prop):
     return []
+
+
+if __name__ == "__main__":
+    prop = sys.argv[1]
+    only = set(sys.argv[2:]) or None
+    for r in run_mutants(prop, 0, only):
+        print(r["status"], r["name"], r.get("reported") or r.get("why", ""))
